@@ -97,8 +97,19 @@ let tie_of (x : sx) : ev -> ev -> bool =
   | _ -> failwith "tie condition"
 
 (* ---- one operation on a tree (used directly and inside histories) *)
-let apply_op (t : ev) (op : sx) : ev res =
+let rec apply_op (t : ev) (op : sx) : ev res =
   match op with
+  | L [A "child"; i; op'] ->
+      (* edit the i-th child in place *)
+      let i = int_of_z (zi i) in
+      let cs = children t in
+      if (match t with Leaf _ -> true | _ -> false) then Err ETypeError
+      else if i < 0 || i >= List.length cs then Err EIndexError
+      else (match apply_op (List.nth cs i) op' with
+            | Ok c' -> Ok (with_children t (List.mapi (fun j c -> if j = i then c' else c) cs))
+            | Err k -> Err k)
+  | L [A "set_dur"; d] ->
+      (match t with Leaf (_, l) -> Ok (Leaf (zi d, l)) | _ -> Err EAttributeError)
   | L [A "cut_out"; s; e] -> cut_out t (zi s) (zi e)
   | L [A "cut_off"; s; e] -> cut_off t (zi s) (zi e)
   | L [A "split_child_at"; x] -> split_child_at t (zi x)
@@ -109,8 +120,8 @@ let apply_op (t : ev) (op : sx) : ev res =
   | L [A "sequentialize"] -> sequentialize t
   | L [A "concat"; bt; o] -> concatenate (bi bt) t (tree o)
   | L [A "add"; o] -> seq_add t (tree o)
-  | L [A "remove_by"; c] -> Ok (remove_by (keep_of c) t)
-  | L [A "tie_by"; c; rm] -> Ok (tie_by (tie_of c) (bi rm) t)
+  | L [A "remove_by"; c] -> (match t with Leaf _ -> Err EAttributeError | _ -> Ok (remove_by (keep_of c) t))
+  | L [A "tie_by"; c; rm] -> (match t with Leaf _ -> Err EAttributeError | _ -> Ok (tie_by (tie_of c) (bi rm) t))
   | L [A "set_tag"; tg; n] ->
       (match set_by_tag (children t) (zi tg) (tree n) with Ok cs -> Ok (with_children t cs) | Err k -> Err k)
   | L [A "del_tag"; tg] ->
